@@ -33,7 +33,7 @@ ASSUME = ['option errors (exit 1 from utils.error) are not generated: every path
           'operating-system limits (file name length) are input-independent environment limits only up to 200-character identifiers, which the workload does not exceed']
 DECIDING = {
     'quick': {'runs': 250, 'files_accounted': 1500, 'artefact_checks': 250, 'unparsable_files': 60, 'neighbour_differentials': 40, 'audit_events': 2000, 'wild_trees': 40, 'directed_trees': 40, 'corpus_trees': 8},
-    'thorough': {'runs': 4000, 'files_accounted': 30000, 'artefact_checks': 4000, 'unparsable_files': 1500, 'neighbour_differentials': 800, 'audit_events': 50000, 'wild_trees': 1000, 'directed_trees': 60, 'corpus_trees': 150},
+    'thorough': {'runs': 4000, 'files_accounted': 30000, 'artefact_checks': 4000, 'unparsable_files': 1500, 'neighbour_differentials': 800, 'audit_events': 50000, 'wild_trees': 1000, 'directed_trees': 45, 'corpus_trees': 150},
 }
 CPU_S = 900
 HANG_IS_VIOLATION = True
@@ -420,7 +420,24 @@ def _directed() -> Dict[str, Dict[str, Any]]:
     add('big-module', {'pkg/__init__.py': '', 'pkg/big.py': ''.join(f'def f{i}(a, b={i}):\n    """Doc {i} L{{f{i + 1}}}"""\nV{i} = [{i}] * 3\n"""doc of V{i}"""\n' for i in range(3000)), 'pkg/good.py': GOOD})
     add('long-lines', {'pkg/__init__.py': '', 'pkg/a.py': 'X = "' + 'a' * 200_000 + '"\nY = [' + '1, ' * 50_000 + ']\ndef f(' + ', '.join(f'a{i}=1' for i in range(250)) + '):\n    """' + 'word ' * 40_000 + '"""\n', 'pkg/good.py': GOOD})
     add('long-identifier-200', {'pkg/__init__.py': '', 'pkg/a.py': 'class ' + 'C' * 200 + ':\n    def ' + 'm' * 200 + '(self): pass\n', 'pkg/good.py': GOOD})
-    add('huge-numbers', {'pkg/__init__.py': '', 'pkg/a.py': 'X = ' + '9' * 5000 + '\nY = 1e999\nZ = 0x' + 'f' * 4000 + '\nW = 10 ** 10 ** 10\ndef f(a=' + '9' * 5000 + '): pass\n', 'pkg/good.py': GOOD})
+    add('huge-int-literals', {'pkg/__init__.py': '', 'pkg/hexint.py': 'X = 0x' + 'f' * 5000 + '\n', 'pkg/binint.py': 'Y = 0b' + '1' * 20000 + '\ndef f(a=0o' + '7' * 6000 + '): pass\n',
+                               'pkg/shift.py': 'Z = 1 << 100000\nW = -0x' + 'a' * 4000 + '\nclass C:\n    M = [0x' + 'f' * 5000 + ']\n', 'pkg/good.py': GOOD})
+    add('literal-eval-odd', {'pkg/__init__.py': '__all__ = {[]: 1}\n', 'pkg/a.py': '__docformat__ = {[]: 1}\n', 'pkg/b.py': '__all__ = [{[]: 1}, {{}}, "x"]\nx = 1\n', 'pkg/c.py': 'def f(): pass\nf.__doc__ = {[]: 1}\nf.__doc__ = {{1}: 2}\n',
+                              'pkg/d.py': 'import attr\n@attr.s(auto_attribs={[]: 1})\nclass A:\n    x: int = 1\n@attr.s(auto_attribs={{}})\nclass B: pass\n', 'pkg/e.py': '__all__ = ["a", *{[]: 1}]\n__docformat__ = [[]] * 3\n__all__ += {[]: 0}\n',
+                              'pkg/good.py': GOOD})
+    dfnames = ['_types', '_napoleon', '__init__', '_pyval_repr', 'doctest', '.', '..', 'a.b', 'epytext.x', 'plaintext ', ' plaintext', '../x', 'os', 'restructuredtext\x00', 'EPYTEXT', 'Google',
+               'numpy en', '', '   ', '\n', 'é', 'a' * 300]
+    dffiles: Dict[str, Any] = {'pkg/__init__.py': '', 'pkg/good.py': GOOD}
+    for i, n in enumerate(dfnames):
+        dffiles[f'pkg/df{i}.py'] = f'__docformat__ = {n!r}\ndef f():\n    """doc L{{x}} `y`"""\n'
+    add('docformat-names', dffiles)
+    add('decorated-twice', {'pkg/__init__.py': '', 'pkg/a.py': 'class C:\n    @staticmethod\n    def f(): pass\n    f = staticmethod(f)\n    @classmethod\n    def g(cls): pass\n    g = classmethod(g)\n    g = staticmethod(g)\n    def h(self): pass\n    h = classmethod(h)\n    h = classmethod(h)\n'
+                                                        '    @property\n    def p(self): pass\n    p = staticmethod(p)\n    class K: pass\n    K = staticmethod(K)\n    v = 1\n    v = classmethod(v)\n    nosuch = staticmethod(nosuch)\n', 'pkg/good.py': GOOD})
+    add('root-named-index', {'index.py': 'class index: pass\ndef f(): pass\n'}, roots=['index.py'])
+    add('root-package-named-index', {'index/__init__.py': 'class C: pass\n', 'index/index.py': 'x = 1\n'}, roots=['index'])
+    add('self-reexport', {'pkg/__init__.py': 'import pkg\nfrom pkg import pkg\nfrom . import *\n__all__ = ["pkg", "__init__", "__all__"]\n', 'pkg/m.py': 'import m\nfrom m import m\nfrom .m import m\n__all__ = ["m"]\n', 'pkg/good.py': GOOD})
+    add('implementer-odd', {'pkg/__init__.py': '', 'pkg/a.py': 'from zope.interface import implementer, Interface, implementer_only, classImplementsOnly, provider\n@implementer(1)\nclass C: pass\n@implementer(lambda: 0, "x", C(), None, ..., *a, **k)\nclass D: pass\n@implementer()\nclass E: pass\n@implementer(E)\ndef f(): pass\n@provider(1)\nclass F(Interface(), Interface): pass\nclassImplementsOnly(1, 2)\nG = implementer(C)(D)\n', 'pkg/good.py': GOOD})
+    add('huge-numbers', {'pkg/__init__.py': '', 'pkg/a.py': 'X = ' + '9' * 5000 + '\n', 'pkg/b.py': 'Y = 1e999\nZ = 0x' + 'f' * 3000 + '\nW = 10 ** 10 ** 10\nV = ' + '9' * 4000 + '\ndef f(a=' + '9' * 4299 + ', b=1e-999, c=1_0.0_1e1_0j): pass\n', 'pkg/good.py': GOOD}, broken=['pkg/a.py'])
     add('encodings', {'pkg/__init__.py': b'\xef\xbb\xbf"""bom"""\n', 'pkg/latin.py': b'# -*- coding: latin-1 -*-\n"""caf\xe9"""\nX = "\xe9"\n', 'pkg/crlf.py': b'"""doc"""\r\nclass C:\r\n    """d"""\r\n    x = 1\r\n', 'pkg/cr.py': b'"""doc"""\rclass C:\r    x = 1\r',
                        'pkg/utf16.py': b'\xff\xfe' + 'x = 1\n'.encode('utf-16-le'), 'pkg/badcookie.py': b'# coding: nosuchcodec\nx = 1\n', 'pkg/badutf8.py': b'x = "\xff\xfe"\n', 'pkg/nul.py': b'x = 1\n\x00\n', 'pkg/ctrlz.py': b'x = 1\n\x1a\ny = 2\n',
                        'pkg/formfeed.py': b'\x0cclass C:\n\x0c    x = 1\n', 'pkg/good.py': GOOD.encode()}, broken=['pkg/utf16.py', 'pkg/badcookie.py', 'pkg/badutf8.py', 'pkg/nul.py'])
